@@ -265,13 +265,13 @@ package util
 // ---- smoothing (C08, C10) ---------------------------------------------------------------------------
 //@ func UpdateSimpleMovingAvg
 //@   props C08 C10
-//@   requires n >= 1 && n <= 1000000000 && fin(oldAvg) && fin(newValue)
-//@   let bounded = abs(real(oldAvg)) <= 1.0e300 && abs(real(newValue)) <= 1.0e300 && (oldAvg == newValue || abs(real(oldAvg)) >= 1.0e-270 || abs(real(newValue)) >= 1.0e-270)
-//@   ensures[C08.finite C10] abs(real(oldAvg)) <= 1.0e300 && abs(real(newValue)) <= 1.0e300 ==> fin(result)
+//@   requires n >= 1 && n <= 1000000000
+//@   let bounded = fin(oldAvg) && fin(newValue) && abs(real(oldAvg)) <= 1.0e300 && abs(real(newValue)) <= 1.0e300 && (oldAvg == newValue || abs(real(oldAvg)) >= 1.0e-270 || abs(real(newValue)) >= 1.0e-270)
+//@   ensures[C08.finite C10] fin(oldAvg) && fin(newValue) && abs(real(oldAvg)) <= 1.0e300 && abs(real(newValue)) <= 1.0e300 ==> fin(result)
 //@   ensures[C08.hull C10]   bounded && n >= 2 ==> min(oldAvg, newValue) <= result && result <= max(oldAvg, newValue)
-//@   ensures[C08.n1zero C10] n == 1 && real(newValue) == 0.0 && abs(real(oldAvg)) <= 1.0e300 ==> real(result) == 0.0 && fin(result)
-//@   ensures[C10.unit]  n <= 1000000000 && real(oldAvg) == 1.0 && real(newValue) == 0.0 ==> result < 1.0 && result >= 0.0
-//@   ensures[C08.fixpoint C10] abs(real(oldAvg)) <= 1.0e300 && oldAvg == newValue ==> result == newValue
+//@   ensures[C08.n1zero C10] fin(oldAvg) && fin(newValue) && n == 1 && real(newValue) == 0.0 && abs(real(oldAvg)) <= 1.0e300 ==> real(result) == 0.0 && fin(result)
+//@   ensures[C10.unit]  fin(oldAvg) && fin(newValue) && real(oldAvg) == 1.0 && real(newValue) == 0.0 ==> result < 1.0 && result >= 0.0
+//@   ensures[C08.fixpoint C10] fin(oldAvg) && abs(real(oldAvg)) <= 1.0e300 && oldAvg == newValue ==> result == newValue
 //@   modifies nothing
 
 // ---- curve interpolation (C06, C07) ---------------------------------------------------------------------
